@@ -31,6 +31,9 @@ type verdictRec struct {
 	DNS        string  `json:"dns,omitempty"`
 	DNSWinners []int   `json:"dnswinners,omitempty"`
 	DNSCands   []int   `json:"dnscands,omitempty"`
+	// DocWinners: the referrer-level exceptions (indexes into the src pool) that may be reported when no rule of the
+	// request itself decides
+	DocWinners []int `json:"docwinners,omitempty"`
 }
 
 type verdictMismatch struct {
@@ -97,6 +100,15 @@ type verdictEnv struct {
 }
 
 const verdictURL, verdictSrcURL, verdictHost = "http://h.test/", "http://src.test/", "h.test"
+
+// verdictSubst rewrites a pool rule for the variant "referrer under a private public suffix, on a page below /dir/": the
+// $domain values become github.io, the referrer-level patterns name the site and the directory, and the request-level
+// patterns become too short for the shortcut index.
+func verdictSubst(t string) string {
+	t = strings.ReplaceAll(t, "||src.test^", "||user.github.io/dir/")
+	t = strings.ReplaceAll(t, "src.test", "github.io")
+	return strings.ReplaceAll(t, "||h.test^", "||h.t*")
+}
 
 func newVerdictReq() *rules.Request {
 	r := rules.NewRequest(verdictURL, verdictSrcURL, rules.TypeDocument)
@@ -311,6 +323,19 @@ func cmdReplayVerdict(args []string) error {
 				report(c, entry, mt, st, lists, expClass, gc, gt, "verdict class")
 				return
 			}
+			if got != nil && fromDoc {
+				// the verdict comes from a referrer-level exception: it must be one that no other one outranks
+				dj := -1
+				for _, j := range c.Sb {
+					if env.srcText[j-1] == gt || verdictSubst(env.srcText[j-1]) == gt {
+						dj = j
+					}
+				}
+				if dj < 0 || !inInts(c.DocWinners, dj) {
+					report(c, entry, mt, st, lists, expClass, gc, gt, "reported referrer-level exception is not an admissible winner")
+				}
+				return
+			}
 			if got == nil || fromDoc {
 				return
 			}
@@ -456,9 +481,7 @@ func cmdReplayVerdict(args []string) error {
 				// the same bag with the referrer under a private public suffix (user.github.io, $domain=github.io) and
 				// patterns too short for the shortcut index ("||h.t*"), so that the rules are filed under their $domain:
 				// nothing the verdict depends on has changed
-				subst := func(t string) string {
-					return strings.ReplaceAll(strings.ReplaceAll(t, "src.test", "github.io"), "||h.test^", "||h.t*")
-				}
+				subst := verdictSubst
 				var l2 [][]string
 				for _, l := range lists {
 					var x []string
@@ -473,7 +496,7 @@ func cmdReplayVerdict(args []string) error {
 				}
 				var got2 *rules.NetworkRule
 				pv2 := safeCall(func() {
-					q := rules.NewRequest(verdictURL, "http://user.github.io/page", rules.TypeDocument)
+					q := rules.NewRequest(verdictURL, "http://user.github.io/dir/page.html", rules.TypeDocument)
 					q.SortedClientTags, q.ClientName, q.DNSType = []string{"t1"}, "phone", dns.TypeA
 					res := urlfilter.NewEngine(st2).MatchRequest(q)
 					got2 = res.GetBasicResult()
